@@ -209,6 +209,15 @@ Proof. revert k; induction l as [|y l IH]; intros [|k] Hl Hd; cbn; auto; inv Hl;
 
 Lemma dummy_ok : Wok dummy_w -> True. Proof. auto. Qed.
 
+Lemma locate_nth_ok ws : Forall Wok ws -> forall pos k o, locate ws pos = Some (k, o) -> Wok (nth k ws dummy_w).
+Proof.
+  induction 1 as [|w ws Hw Hws IH]; intros pos k o EL; cbn [locate] in EL; [discriminate|].
+  destruct (pos <? length (w_slots w)).
+  - inv EL. cbn. auto.
+  - destruct (locate ws (pos - length (w_slots w))) as [[k' o']|] eqn:E; [|discriminate].
+    inv EL. cbn. eapply IH; eauto.
+Qed.
+
 Lemma serve_ws_ok e r : Forall Wok (e_ws e) -> Forall Wok (e_ws (serve e r)).
 Proof.
   intros H. destruct r as [pos ops]. unfold serve.
@@ -216,20 +225,15 @@ Proof.
   - destruct (nth o (w_slots (nth k (e_ws e) dummy_w)) None) eqn:En; auto.
     cbn. rewrite run_ops_ws. apply Forall_set_nth; auto.
     apply release_ok.
-    (* the located window is one of the windows *)
-    clear - H EL. revert pos k EL. induction (e_ws e) as [|w ws IH]; intros pos k EL; cbn in EL; [discriminate|].
-    inv H. destruct (pos <? length (w_slots w)).
-    + inv EL. cbn. auto.
-    + destruct (locate ws (pos - length (w_slots w))) as [[k' o']|] eqn:E; [|discriminate].
-      inv EL. cbn. eapply IH; eauto.
+    eapply locate_nth_ok; eauto.
   - destruct (nth (pos - static_sz e) (e_dyn e) None) as [[b n]|]; auto.
     rewrite run_ops_ws. cbn. auto.
 Qed.
 
 Lemma feed_ws f : forall e, e_ws (feed f e) = e_ws e.
 Proof.
-  induction f as [|f IH]; intros e; cbn; auto.
-  destruct ((length (e_dyn e) <? e_D e) && _); auto.
+  induction f as [|f IH]; intros e; cbn [feed]; auto.
+  match goal with |- context[if ?c then _ else _] => destruct c end; auto.
   unfold push_posted.
   destruct (if e_nrecv e <? e_R e then e_recvq e else []) as [|n q].
   - destruct (e_sendq e) as [|n q]; auto. rewrite IH. reflexivity.
